@@ -516,15 +516,16 @@ def ensure_extracted(ctx):
             if rc != 0 or not os.path.exists(ml):
                 raise RuntimeError("extraction failed: " + out[-1500:])
         drv = os.path.join(exdir, "driver.ml.in")
+        mod = base[0].upper() + base[1:]
+        with open(drv) as f:
+            d = f.read()
+        d = d.replace("@MOD@", mod).replace(
+            "@ENTRIES@", "; ".join('("%s", %s)' % (e, e) for e in entries))
+        main = os.path.join(exdir, base + "_main.ml")
+        old_main = open(main).read() if os.path.exists(main) else None
         stale = (not os.path.exists(exe) or os.path.getmtime(exe) < os.path.getmtime(ml)
-                 or os.path.getmtime(exe) < os.path.getmtime(drv))
+                 or os.path.getmtime(exe) < os.path.getmtime(drv) or old_main != d)   # entry list changed
         if stale:
-            mod = base[0].upper() + base[1:]
-            with open(drv) as f:
-                d = f.read()
-            d = d.replace("@MOD@", mod).replace(
-                "@ENTRIES@", "; ".join('("%s", %s)' % (e, e) for e in entries))
-            main = os.path.join(exdir, base + "_main.ml")
             with open(main, "w") as f:
                 f.write(d)
             r = subprocess.run(["ocamlfind", "ocamlopt", "-w", "-a", "-I", exdir,
